@@ -53,6 +53,7 @@ PROPS = {
                      "W-TinyLFU: the Bloom geometry is data validated by bloom_geometry_ok on every instance"],
     ),
     "C05": dict(
+        level_text="Coq theorems: in the models every unwrap(), index and overflow-checked addition of the library is an explicit Panic value; for SegmentedCache, TwoQueueCache, AdaptiveCache and WTinyLFUCache every operation of every reachable state returns Ok (induction over histories with the C01 invariants), RawLRU's step is total by construction, TinyLFU's increment/estimate/contains/compare/reset/clear return Ok for every 64-bit hash on every estimator the constructor builds (both sketch variants), and the sketch/sample-size validation of the constructor is proved. The models are tied to /repo by differential execution under catch_unwind, std and no_std builds, overflow checks on.",
         props_files=["C05"],
         theorems={"C05": ["C05_slru_total", "C05_twoq_total", "C05_arc_total", "C05_wtiny_total",
                           "C05_tiny_increment", "C05_tiny_estimate", "C05_tiny_contains", "C05_tiny_compare",
@@ -82,6 +83,7 @@ PROPS = {
                      "hashes are below 2^64 (u64)"],
     ),
     "C16": dict(
+        level_text="Coq theorems: for every reachable state of RawLRU, SegmentedCache and WTinyLFUCache the clone (rebuilt by re-inserting the entries least-recent first, as the code does) is equal to the original state, hence every later operation sequence gives identical results; TinyLFU's clone is the state itself. Tied to /repo by differential execution with clone at random points, the original dropped or kept and operated on.",
         props_files=["C16"],
         theorems={"C16": ["C16_lru_clone_identical", "C16_lru_same_future", "C16_slru_clone_identical",
                           "C16_wtiny_clone_identical", "C16_tiny_clone_identical"]},
@@ -102,6 +104,7 @@ PROPS = {
                      "implementation (structural audit, drop ledger, allocator poison)"],
     ),
     "C20": dict(
+        level_text='Coq theorems over an executable model of SampledLFU: after every sequence of increment (also on a tracked key), update, remove, clear, update_max_cost, room_left(c) = max_cost - sum of recorded costs - c; update/remove report exactly whether the key was tracked and its cost; fill_sample returns its input followed by distinct tracked pairs up to the sample size, for every hash-map iteration order. Tied to /repo by differential execution.',
         props_files=["C20"],
         theorems={"C20": ["C20_room_left_exact", "C20_tracked_keys_distinct", "C20_update_reports_tracked",
                           "C20_remove_reports_cost", "C20_fill_sample"]},
@@ -111,6 +114,29 @@ PROPS = {
         monitors=["mon_c20"],
         assumptions=["costs stay far from the i64 range (the model is over Z)",
                      "fill_sample: the hash map's iteration order is taken from the real output and validated"],
+    ),
+    "C13": dict(
+        level_text="Coq theorems: in the models of all five caches every read-only call (peek, peek_mut without write, contains, len, cap, is_empty, peek_lru/peek_mru variants, get_mru, non-writing iterator scripts, per-segment accessors, partition(), Debug) returns the identical state - every list order, value, ARC's p and the W-TinyLFU estimator - and inserting any list of such calls at any position of any history changes neither the final state nor any later result (generic insertion theorem). Tied to /repo by differential execution comparing the full snapshot (all lists, p, estimator bytes) after every call.",
+        props_files=["C13"],
+        theorems={"C13": ["C13_lru_state_unchanged", "C13_slru_state_unchanged", "C13_twoq_state_unchanged",
+                          "C13_arc_state_unchanged", "C13_wtiny_state_unchanged", "C13_lru_insertion",
+                          "C13_slru_insertion", "C13_twoq_insertion", "C13_arc_insertion", "C13_wtiny_insertion"]},
+        slices=dict(quick=lru_slices(1500, 150, 2, 100000) + comp_slices(1500, 150, 800),
+                    thorough=lru_slices(30000, 400, 3, 1000000) + comp_slices(30000, 400, 15000)),
+        corpus=ALL_CORPUS,
+        monitors=["mon_c13"],
+        assumptions=["the snapshot (all lists through the verif-hooks accessors, ARC's p, the estimator's bytes) is the "
+                     "whole state later results depend on; Debug formatting exists only for RawLRU and TwoQueueCache"],
+    ),
+    "C15": dict(
+        level_text='Coq theorems over the RawLRU model: for every reachable state and every operation of the whole API the callback log of the call equals the list of entries that departed (defined independently of the step function from the lists before/after), least-recent first, with their current values; hence exactly once per departing entry, never for an update, a read or a staying entry. Tied to /repo by differential execution with a recording callback through both callback constructors.',
+        props_files=["C15"],
+        theorems={"C15": ["C15_callback_exact", "C15_reachable", "C15_never_for_staying_entries",
+                          "C15_once_per_departing_entry", "C15_no_callback_without_departure"]},
+        slices=dict(quick=lru_slices(3000, 150, 2, 100000), thorough=lru_slices(60000, 400, 3, 1000000)),
+        corpus=["lru"],
+        monitors=["mon_c15"],
+        assumptions=["the recording callback of the harness sees exactly the (key, value) pairs the library passes to on_evict"],
     ),
     "C06": dict(
         props_files=["C06"],
